@@ -25,15 +25,22 @@ def consts(tu):
 
 
 def build_c(run):
-    tu = get_tu()
-    einval, enotsup, bufsize = consts(tu)
-    K.verify(run, ID, tu, CT.TrxDataRxCb(einval, enotsup, bufsize))
-    K.verify(run, ID, tu, CT.BurstReq(bufsize))
-    agreement_lemmas(run)
+    def rx():
+        tu = get_tu(("trx_data_rx_cb",))
+        einval, enotsup, bufsize = consts(tu)
+        K.verify(run, ID, tu, CT.TrxDataRxCb(einval, enotsup, bufsize))
+        run.extra.setdefault("verbatim_extraction", {})["trx_data_rx_cb"] = tu.extraction
+
+    def tx():
+        tu = get_tu(("trx_if_handle_phyif_burst_req",))
+        K.verify(run, ID, tu, CT.BurstReq(consts(tu)[2]))
+        run.extra.setdefault("verbatim_extraction", {})["trx_if_handle_phyif_burst_req"] = tu.extraction
+    K.sect(run, "trx_data_rx_cb", rx)
+    K.sect(run, "trx_if_handle_phyif_burst_req", tx)
+    K.sect(run, "agreement_lemmas", agreement_lemmas, run)
     run.assume("prelude shim/trxcon_trx_if_prelude.h: GSM_TDMA_HYPERFRAME = 2715648, GSM_NBITS_NB_{GMSK,8PSK}_BURST = 148/444, "
                "GSM_TDMA_FN_SUM, osmo_load32be/osmo_store32be as defined in current libosmocore (the bundled one lacks them)")
     run.assume("trx->fn_advance < 2715648 (configuration value; otherwise the 32-bit sum fn + fn_advance could wrap before the modulo)")
-    run.extra["verbatim_extraction"] = tu.extraction
     K.finish(run)
 
 
@@ -227,14 +234,14 @@ def replay_one(payload):
     w = payload["inputs"]
     func = w.get("func")
     if func == "lemma":
-        return {"confirmed": False, "observed": "spec-level lemma", "expected": "n/a"}
+        return {"confirmed": False, "error": "spec-level lemma: there is no native run that could refute or confirm it", "observed": "spec-level lemma", "expected": "n/a"}
     if func == "trx_data_rx_cb":
         d = list(w.get("dgram") or [])
         n = max(min(w.get("n", len(d)), 512), 0)
         d = (d + [0] * n)[:n]
         adv = w.get("fn_advance", 0) % CT.HYPERFRAME
         if n == 0:
-            return {"confirmed": False, "observed": "n <= 0 (read error / empty datagram): not replayable over a socket", "expected": "ret == n"}
+            return {"confirmed": False, "error": "counter-model not executed: n <= 0 (read error / empty datagram) is not replayable over a socket", "expected": "ret == n"}
         res = R.run_harness(harness(), harness_flags(), ["rx", adv, n] + d)
         exp = expected_rx(adv, d)
     elif func == "trx_if_handle_phyif_burst_req":
